@@ -153,12 +153,11 @@ func exerciseEnvelope(env *gobl.Envelope, o *vh.Obs) {
 	}
 	if env.Head != nil {
 		// nothing handed over is nothing added (and nothing to crash on)
+		before := len(env.Head.Stamps)
 		env.Head.AddStamp(nil)
 		env.Head.AddLink(nil)
-		for _, st := range env.Head.Stamps {
-			if st == nil && !o.Failed() {
-				o.Failf("header:nil-stamp-stored", "AddStamp(nil) stored a nil entry in the header's stamps")
-			}
+		if len(env.Head.Stamps) != before && !o.Failed() {
+			o.Failf("header:nil-stamp-stored", "AddStamp(nil) stored an entry in the header's stamps (%d before, %d after)", before, len(env.Head.Stamps))
 		}
 	}
 	out, err := json.Marshal(env)
